@@ -334,7 +334,13 @@ impl JsonLayout {
 		if let Some((a, b)) = strval(b"\"payload\":") {
 			let mut d = b;
 			while d > a && m[d - 1] == b'=' { d -= 1; }
-			l.spans.push((a, d, "j_pl"));
+			// with padding present the last digit carries 2 or 4 bits that are not payload
+			if d < b && d > a {
+				l.spans.push((d - 1, d, "j_last"));
+				l.spans.push((a, d - 1, "j_pl"));
+			} else {
+				l.spans.push((a, d, "j_pl"));
+			}
 			l.spans.push((d, b, "j_pad"));
 			l.pl = (a, d);
 		}
@@ -361,6 +367,7 @@ impl JsonLayout {
 	pub fn frame_positions(&self, m: &[u8]) -> Vec<usize> {
 		// everything outside the payload digits, and the payload's ends
 		let mut v: Vec<usize> = (0..=m.len()).filter(|p| *p >= m.len() || self.reg(*p) != "j_pl").collect();
+		// a container with padded base64 exists for two payload lengths out of three
 		v.extend(self.pl.0..(self.pl.0 + 24).min(self.pl.1));
 		v.extend((if self.pl.1 > 24 { self.pl.1 - 24 } else { 0 }).max(self.pl.0)..self.pl.1);
 		v
